@@ -118,35 +118,16 @@ def runApp (c : Case) : Res :=
   match dflt?, rows?, inits?, implSecs? with
   | some dflt, some rows, some inits, some implSecs =>
     let initOf := fun s => (inits.find? (fun p => p.1 == s)).map (·.2)
-    -- iteration order of the affiliate HashSet, as observed in the implementation's rows:
-    -- the affiliates of the first run of >= 2 split rows that stem from one input row
-    let observedOrder := fun (s : Nat) =>
-      match implSecs.find? (fun (x : ImplSec) => x.sec == s) with
-      | none => ([] : List Aff)
-      | some x =>
-        let splits : List ImplDelta := x.deltas.filter (fun (d : ImplDelta) => d.act == "split")
-        let idxs : List Nat := (splits.map (fun (d : ImplDelta) => d.idx)).eraseDups
-        let runs : List (List Aff) := idxs.map (fun i => (splits.filter (fun (d : ImplDelta) => d.idx == i)).map (fun (d : ImplDelta) => d.aff))
-        let big : List (List Aff) := runs.filter (fun (r : List Aff) => r.length ≥ 2)
-        -- longest run first (a truncated run after a failure is a prefix of the full order)
-        match (big.toArray.qsort (fun (a b : List Aff) => a.length > b.length)).toList with
-        | r :: _ => r
-        | [] => []
-    -- `k` selects which of the not-yet-observed affiliates comes next (a run truncated by a
-    -- failure shows only a prefix of the order)
-    let orderForK := fun (s : Nat) (k : Nat) (affs : List Aff) =>
-      let obs := (observedOrder s).filter (fun a => affs.contains a)
-      let rest := affs.filter (fun a => !obs.contains a)
-      obs ++ (rest.drop k ++ rest.take k)
     let sorted := sortRows rows
-    let modelSec := fun (s : Nat) (k : Nat) =>
-      match replaceGlobalSplits dflt (orderForK s k) (rowsOf s sorted) with
+    let modelSec := fun (s : Nat) =>
+      let holders := if (initOf s).isSome then [dflt] else []
+      match replaceGlobalSplits dflt holders (rowsOf s sorted) with
       | none => (([] : List Tx), ([] : List Delta), some (Failure.err .splitConflict))
       | some txs =>
         let r := deltaList dflt (initOf s) txs
         (txs, r.1, r.2)
     let model : Option (List (Nat × List Delta × Option Failure)) :=
-      some (runPipeline dflt (fun s => orderForK s 0) initOf rows)
+      some (runPipeline dflt initOf rows)
     let nGlob := (rows.filter isGlobalSplit).length
     let secs := secsOf rows
     let baseTags := [s!"secs={secs.length}", s!"rows={rows.length}", s!"gsplits={nGlob}",
@@ -202,13 +183,8 @@ def runApp (c : Case) : Res :=
           match implSecs.find? (fun (x : ImplSec) => x.sec == s) with
           | none => ({ sec := s, diff := some ("dk=rows", s!"security {s}: missing in the implementation's result"), oracles := [], ds := ds, fail := fail } : SecCmp)
           | some x =>
-            let nAffs := (nonGlobalAffs (rowsOf s sorted)).length
-            let cands := (List.range (max 1 nAffs)).map (fun k =>
-              let (txs, ds, fail) := modelSec s k
-              cmpOne s x txs ds fail)
-            match cands.find? (fun r => r.diff.isNone && r.oracles.isEmpty) with
-            | some r => r
-            | none => cands.headD { sec := s, diff := none, oracles := [], ds := ds, fail := fail })
+            let (txs, ds, fail) := modelSec s
+            cmpOne s x txs ds fail)
         let extraSecs := implSecs.filter (fun (x : ImplSec) => !(ms.any (fun m => m.1 == x.sec)))
         let oracleFails := results.flatMap (fun r => r.oracles)
         let oracleFails := oracleFails ++ (match c08fail with | some m => [("C08", m)] | none => [])
